@@ -6,6 +6,17 @@ VERIF = Path(__file__).resolve().parent.parent
 ALL = [f"C{i:02d}" for i in range(1, 20)]
 
 CLAIMED = {
+    "C14": dict(
+        text="api/Prefixed.tla defines the exact decimal value of a prefixed number over lib/BigNum.tla (digit-sequence arithmetic, "
+             "self-checked by MC_BigNum against TLC's native integers on all small operands). For all 441 ordered prefix pairs x "
+             "mantissa pairs (fixed adversarial alphabet + seeded random 1-25 digit mantissas) the real add/sub/mul, the six "
+             "comparisons and hash equality, and per operand neg/abs/scale-to-each-prefix/auto-scale/int/float are executed and logged "
+             "as exact digits; TLC (Trace_Prefixed) recomputes every result exactly and checks trichotomy, the relation lattice, "
+             "agreement with exact comparison outside the tolerance, hash consistency, integer part and nearest-float.",
+        note="Trusted: Decimal.as_tuple projection, Decimal(float) exact expansion and math.nextafter in harness/props/c14.py; TLC. "
+             "Tolerance read in the implementation's favour (1e-20 in units of the larger prefix and of UNIT). Mantissa pairs are sampled "
+             "per prefix pair (quick 12+random, thorough 60+random); prefix pairs are exhaustive.",
+        ref="6 C14", technique="TLA+ functional spec (Prefixed over BigNum) + TLC batch validation of recorded operations"),
     "C03": dict(
         text="lib/PySeq.tla states Python index/slice semantics from the language reference and is itself model-checked against an "
              "independent set-based reading (MC_PySeq, every (n, index) for n <= 4). Index/slice/concat expressions - exhaustive "
